@@ -147,6 +147,7 @@ func main() {
 	cl := parse("node/app/cluster.go")
 
 	methods := map[string]*method{}
+	builderName := ""
 	builderPure := false
 	buildBeforeStores := false
 	for _, d := range cs.Decls {
@@ -170,8 +171,9 @@ func main() {
 					}
 					if len(as.Rhs) == 1 {
 						if c, ok := as.Rhs[0].(*ast.CallExpr); ok {
-							if id, ok := c.Fun.(*ast.Ident); ok && id.Name == "MakeMembers" && callIdx < 0 {
+							if id, ok := c.Fun.(*ast.Ident); ok && callIdx < 0 && firstStore < 0 {
 								callIdx = i
+								builderName = id.Name
 								for _, l := range as.Lhs {
 									if id, ok := l.(*ast.Ident); ok {
 										defined[id.Name] = true
@@ -200,21 +202,50 @@ func main() {
 			}
 		}
 	}
-	// the package-level builder and its helpers: no receiver, no mention of ClusterServices
-	pureCount := 0
-	for _, d := range cs.Decls {
-		fd, ok := d.(*ast.FuncDecl)
-		if !ok || fd.Body == nil || fd.Recv != nil {
+	// the pure builder = the package-level function whose results are stored; it and every
+	// package-level function of the package reachable from it (whatever they are called, however
+	// they are structured) must be unable to touch a directory object: no receiver, and no mention
+	// of the type ClusterServices, of a clusterServices field or of the GetCluster accessor.
+	plain := map[string]*ast.FuncDecl{}
+	files, _ := filepath.Glob(filepath.Join(*repo, "node/app", "*.go"))
+	for _, fp := range files {
+		if strings.HasSuffix(fp, "_test.go") {
 			continue
 		}
-		switch fd.Name.Name {
-		case "MakeMembers", "addService", "makePID":
-			if !mentions(fd, "ClusterServices") {
-				pureCount++
+		rel, _ := filepath.Rel(*repo, fp)
+		for _, d := range parse(rel).Decls {
+			if fd, ok := d.(*ast.FuncDecl); ok && fd.Body != nil && fd.Recv == nil {
+				plain[fd.Name.Name] = fd
 			}
 		}
 	}
-	builderPure = pureCount == 3
+	builderPure = false
+	if fd, ok := plain[builderName]; ok && builderName != "" {
+		builderPure = true
+		seen := map[string]bool{}
+		todo := []*ast.FuncDecl{fd}
+		for len(todo) > 0 {
+			f := todo[len(todo)-1]
+			todo = todo[:len(todo)-1]
+			if seen[f.Name.Name] {
+				continue
+			}
+			seen[f.Name.Name] = true
+			if mentions(f, "ClusterServices") || mentions(f, "clusterServices") || mentions(f, "GetCluster") {
+				builderPure = false
+			}
+			ast.Inspect(f.Body, func(n ast.Node) bool {
+				if c, ok := n.(*ast.CallExpr); ok {
+					if id, ok := c.Fun.(*ast.Ident); ok {
+						if g, ok := plain[id.Name]; ok {
+							todo = append(todo, g)
+						}
+					}
+				}
+				return true
+			})
+		}
+	}
 
 	// transitive loads
 	var total func(name string, depth int) []string
@@ -229,9 +260,24 @@ func main() {
 		}
 		return r
 	}
+	var totalStores func(name string, depth int) []string
+	totalStores = func(name string, depth int) []string {
+		m := methods[name]
+		if m == nil || depth > 8 {
+			return nil
+		}
+		r := append([]string{}, m.stores...)
+		for _, c := range m.calls {
+			r = append(r, totalStores(c, depth+1)...)
+		}
+		return r
+	}
+	// only the exported methods are listed: unexported helper methods count through their callers
 	var names []string
 	for n := range methods {
-		names = append(names, n)
+		if ast.IsExported(n) {
+			names = append(names, n)
+		}
 	}
 	sort.Strings(names)
 
@@ -285,7 +331,7 @@ func main() {
 	var sb strings.Builder
 	sb.WriteString("/-! GENERATED by harness/c08/extract from node/app/clusterservices.go and node/app/cluster.go — do not edit. -/\n")
 	sb.WriteString("namespace Cell2v.Gen.C08\n\n")
-	sb.WriteString("/-- (method of ClusterServices, receiver-field loads in source order, transitively through calls on the receiver) -/\n")
+	sb.WriteString("/-- (exported method of ClusterServices, receiver-field loads in source order, transitively through calls on the receiver) -/\n")
 	sb.WriteString("def methodLoads : List (String × List String) := [\n")
 	for i, n := range names {
 		sep := ","
@@ -295,18 +341,18 @@ func main() {
 		fmt.Fprintf(&sb, "  (%q, %s)%s\n", n, leanList(total(n, 0)), sep)
 	}
 	sb.WriteString("]\n\n")
-	sb.WriteString("/-- (method of ClusterServices, receiver fields it assigns, source order) -/\n")
+	sb.WriteString("/-- (exported method of ClusterServices, receiver fields it assigns, transitively, source order) -/\n")
 	sb.WriteString("def methodStores : List (String × List String) := [\n")
 	for i, n := range names {
 		sep := ","
 		if i == len(names)-1 {
 			sep = ""
 		}
-		fmt.Fprintf(&sb, "  (%q, %s)%s\n", n, leanList(methods[n].stores), sep)
+		fmt.Fprintf(&sb, "  (%q, %s)%s\n", n, leanList(totalStores(n, 0)), sep)
 	}
 	sb.WriteString("]\n\n")
 	fmt.Fprintf(&sb, "/-- in `(*ClusterServices).MakeMembers` the pure builder is called before the first field store and every store assigns a variable that call defined -/\ndef buildBeforeStores : Bool := %v\n\n", buildBeforeStores)
-	fmt.Fprintf(&sb, "/-- `MakeMembers`, `addService`, `makePID` are package-level functions that never mention `ClusterServices` -/\ndef builderPure : Bool := %v\n\n", builderPure)
+	fmt.Fprintf(&sb, "/-- the function whose results `(*ClusterServices).MakeMembers` stores is a package-level function, and neither it nor any package-level function of package app reachable from it mentions `ClusterServices`, a `clusterServices` field or `GetCluster` (so it cannot read or write a directory object) -/\ndef builderPure : Bool := %v\n\n", builderPure)
 	sb.WriteString("/-- (method of Cluster, method of its `clusterServices` it calls), one entry per call -/\n")
 	sb.WriteString("def clusterDelegates : List (String × String) := [\n")
 	for i, d := range delegs {
